@@ -290,6 +290,8 @@ class Report:
             trusted_base=self.trusted,
             functions_under_contract=self.functions,
             by_backend=by_backend,
+            slowest_obligations=[dict(name=r["name"], backend=r["backend"], secs=round(r["secs"], 2)) for r in
+                                 sorted(self.results, key=lambda r: -r["secs"])[:5] if r["secs"] > 0],
             bounded_instances=len(B),
             bounded_instances_ok=sum(1 for r in B if r["status"] == PROVED),
             bounded_label="bounded: instances of a truncated family; all values inside each instance; never counted as proved",
